@@ -25,7 +25,7 @@ def run(tier, seed, replay=None):
     check.coverage['rule'] = ('strings assembled around the grammar: components of length {0,1,2,3,4,63,64,65,66,130,random} over [A-Za-z0-9_-] with an '
                               'optional odd character (half from a list: separators, controls, 2/3/4-byte UTF-8 boundaries, U+203F, ZWJ, combining marks, non-ASCII digits, characters that case folding or compatibility mappings relate to ASCII letters/digits/-/_ such as U+017F U+212A U+0130 fullwidth forms; half any Unicode scalar value) at a random '
                               'position, reserved-word variants, 16 shapes of slash placement, plus (namespace, topic) pairs for create(); one seeded PRNG; '
-                              'thorough tier adds an exhaustive sweep of all Unicode scalar values at six positions; non-trivial = distinct input line ; srv: raw peers register on valid / invalid / reserved names over loopback QUIC (first reply compared with the model and the grammar), then five confusable names (swapped parts, shifted split point, shared namespace, shared topic) carry concurrent traffic and every subscriber must see exactly its own')
+                              'thorough tier adds an exhaustive sweep of all Unicode scalar values at six positions; non-trivial = distinct input line ; srv: raw peers register on valid / invalid / reserved names over loopback QUIC (first reply compared with the model and the grammar), then nine confusable names (swapped parts, shifted split point, shared namespace, shared topic, the same text split at different underscore / hyphen characters) carry concurrent traffic and every subscriber must see exactly its own')
     check.coverage['trusted_base'] = TRUSTED_BASE_COMMON + [
         'modelled, not verified: the regex crate on the translated fragment (anchored sequence of literals and bounded class repetitions; matcher proved sound and complete in P_Regex.v), str::starts_with, str::get(1..) - validated by the differential',
         'strings are modelled as lists of Unicode scalar values; UTF-8 enters only through str::get(1..) (utf8_len)',
